@@ -122,11 +122,11 @@ mutual
 /-- the subtree built at `start + i` is the item list of the spec placed at `start`, and the next
 free position is `start + i + number of items` (no gap, no overlap) -/
 theorem buildOne_spec (c : Cfg) (b : Bool) (start : Nat) : ∀ (t : XTree) (p i : Nat) (par : Option Nat),
-    p = start + i → treeWF c t = true → (b = false → lateTail t = false) →
+    p = start + i → treeWF c t = true →
     (iterNode (par.map (start + ·)) (buildOne c p t).1).map (blankIf b)
         = ((itemsOne c par i t).map (place start)).map (blankIf b) ∧
     (buildOne c p t).2 = p + (itemsOne c par i t).length
-  | .elem name nsmap attrib text kids tail, p, i, par, hp, hwf, hk => by
+  | .elem name nsmap attrib text kids tail, p, i, par, hp, hwf => by
     simp only [treeWF, Bool.and_eq_true] at hwf
     have hns := namespaceNodes_spec start p i hp (c.nsmapOf nsmap)
     have hat := attributeNodes_spec start p i hp (c.nsmapOf nsmap) hwf.1 attrib
@@ -146,9 +146,8 @@ theorem buildOne_spec (c : Cfg) (b : Bool) (start : Nat) : ∀ (t : XTree) (p i 
         (textItem (some i) (i + 1 + (nsItems i (i + 1) (c.nsmapOf nsmap)).length +
           (attrItems i (i + 1 + (nsItems i (i + 1) (c.nsmapOf nsmap)).length) attrib).length) text).length)
       i (by rw [htx.2]; omega) hwf.2
-      (by intro hb; have := hk hb; simpa [lateTail] using this)
     have hsv : b = false → elemStringValue (.elem name nsmap attrib text kids tail)
-        = stringValue (.elem name nsmap attrib text kids tail) := fun hb => elemStringValue_eq _ (hk hb)
+        = stringValue (.elem name nsmap attrib text kids tail) := fun _ => elemStringValue_eq _
     have hin : inScope c nsmap = c.nsmapOf nsmap := rfl
     subst hp
     simp only [buildOne, iterNode, itemsOne, hin, List.map_cons, List.map_append, iterKids_append,
@@ -159,31 +158,23 @@ theorem buildOne_spec (c : Cfg) (b : Bool) (start : Nat) : ∀ (t : XTree) (p i 
       · rw [hns, hat, htx.1, hkids.1]
         simp
     · rw [hkids.2, htx.2]; omega
-  | .comment s tl, p, i, par, hp, _, _ => by subst hp; simp [buildOne, iterNode, itemsOne, place]
-  | .pi t s tl, p, i, par, hp, _, _ => by subst hp; simp [buildOne, iterNode, itemsOne, place]
+  | .comment s tl, p, i, par, hp, _ => by subst hp; simp [buildOne, iterNode, itemsOne, place]
+  | .pi t s tl, p, i, par, hp, _ => by subst hp; simp [buildOne, iterNode, itemsOne, place]
 theorem buildKids_spec (c : Cfg) (b : Bool) (start : Nat) : ∀ (ts : List XTree) (p i par : Nat),
-    p = start + i → kidsWF c ts = true → (b = false → lateKids ts = false) →
+    p = start + i → kidsWF c ts = true →
     (iterKids (some (start + par)) (buildKids c p ts).1).map (blankIf b)
         = ((itemsKids c par i ts).map (place start)).map (blankIf b) ∧
     (buildKids c p ts).2 = p + (itemsKids c par i ts).length
-  | [], p, i, par, _, _, _ => by simp [buildKids, iterKids, itemsKids]
-  | t :: ts, p, i, par, hp, hwf, hk => by
+  | [], p, i, par, _, _ => by simp [buildKids, iterKids, itemsKids]
+  | t :: ts, p, i, par, hp, hwf => by
     simp only [kidsWF, Bool.and_eq_true] at hwf
-    have hk1 : b = false → lateTail t = false := by
-      intro hb; have := hk hb
-      simp only [lateKids, Bool.or_eq_false_iff] at this
-      exact lateKids_false_of_lateOne t this.1
-    have hk2 : b = false → lateKids ts = false := by
-      intro hb; have := hk hb
-      simp only [lateKids, Bool.or_eq_false_iff] at this
-      exact this.2
-    have h1 := buildOne_spec c b start t p i (some par) hp hwf.1 hk1
+    have h1 := buildOne_spec c b start t p i (some par) hp hwf.1
     have h2 := textNode_spec start (buildOne c p t).2 (i + (itemsOne c (some par) i t).length)
       (by rw [h1.2]; omega) par t.tail
     have h3 := buildKids_spec c b start ts (textNode (buildOne c p t).2 t.tail).2
       (i + (itemsOne c (some par) i t).length +
         (textItem (some par) (i + (itemsOne c (some par) i t).length) t.tail).length) par
-      (by rw [h2.2, h1.2]; omega) hwf.2 hk2
+      (by rw [h2.2, h1.2]; omega) hwf.2
     simp only [buildKids, iterKids_cons, iterKids_append, itemsKids, List.map_append, List.length_append]
     refine ⟨?_, ?_⟩
     · have h1' := h1.1
@@ -224,14 +215,14 @@ theorem buildOne_elem_sv (c : Cfg) (p : Nat) (e : XTree) (he : e.isElem = true) 
 
 /-- a document node at `d` over prolog, top element, epilog -/
 theorem docNode_spec (c : Cfg) (b : Bool) (d : Nat) (pro : List XTree) (e : XTree) (epi : List XTree)
-    (he : e.isElem = true) (hwf : treeWF c e = true) (hk : b = false → lateTail e = false) :
+    (he : e.isElem = true) (hwf : treeWF c e = true) :
     (iter (.doc d ((buildSiblings (d + 1) pro).1 ++
         (buildOne c (buildSiblings (d + 1) pro).2 e).1 ::
         (buildSiblings (buildOne c (buildSiblings (d + 1) pro).2 e).2 epi).1))).map (blankIf b)
       = ((documentItems c pro (some e) epi).map (place d)).map (blankIf b) := by
   have h1 := buildSiblings_spec d pro (d + 1) 1 rfl
   have h2 := buildOne_spec c b d e (buildSiblings (d + 1) pro).2 (1 + (siblingItems 1 pro).length) (some 0)
-    (by rw [h1.2.1]; omega) hwf hk
+    (by rw [h1.2.1]; omega) hwf
   have h3 := buildSiblings_spec d epi (buildOne c (buildSiblings (d + 1) pro).2 e).2
     (1 + (siblingItems 1 pro).length + (itemsOne c (some 0) (1 + (siblingItems 1 pro).length) e).length)
     (by rw [h2.2, h1.2.1]; omega)
@@ -247,7 +238,7 @@ theorem docNode_spec (c : Cfg) (b : Bool) (d : Nat) (pro : List XTree) (e : XTre
   simp only [iter, iterNode, documentItems, List.map_cons, List.map_append, iterKids_append, iterKids_cons,
     hsv, h1.1, h3.1, h2']
   congr 1
-  · exact blankIf_doc b (fun hb => elemStringValue_eq e (hk hb)) _ _ _
+  · exact blankIf_doc b (fun _ => elemStringValue_eq e) _ _ _
   · simp only [List.append_assoc]
 
 theorem subtreeAt_wf (c : Cfg) : ∀ (path : List Nat) (t e : XTree), subtreeAt t path = some e →
@@ -274,34 +265,6 @@ theorem subtreeAt_wf (c : Cfg) : ∀ (path : List Nat) (t e : XTree), subtreeAt 
             · exact hl.1
             · exact ih hl.2 hm
         exact this kids hwf.2 hmem
-      | comment s tl => simp [XTree.kids] at hmem
-      | pi t s tl => simp [XTree.kids] at hmem
-    · cases h
-
-theorem subtreeAt_late : ∀ (path : List Nat) (t e : XTree), subtreeAt t path = some e →
-    lateTail t = false → lateTail e = false
-  | [], t, e, h, hk => by simp [subtreeAt] at h; subst h; exact hk
-  | k :: path, t, e, h, hk => by
-    simp only [subtreeAt] at h
-    split at h
-    · rename_i kid hkid
-      refine subtreeAt_late path kid e h ?_
-      have hmem : kid ∈ t.kids := List.mem_of_getElem? hkid
-      cases t with
-      | elem name nsmap attrib text kids tail =>
-        simp only [lateTail] at hk
-        simp only [XTree.kids] at hmem
-        have : ∀ (l : List XTree), lateKids l = false → kid ∈ l → lateTail kid = false := by
-          intro l
-          induction l with
-          | nil => intro _ hm; cases hm
-          | cons a l ih =>
-            intro hl hm
-            simp only [lateKids, Bool.or_eq_false_iff] at hl
-            rcases List.mem_cons.1 hm with rfl | hm
-            · exact lateKids_false_of_lateOne _ hl.1
-            · exact ih hl.2 hm
-        exact this kids hk hmem
       | comment s tl => simp [XTree.kids] at hmem
       | pi t s tl => simp [XTree.kids] at hmem
     · cases h
